@@ -94,7 +94,7 @@ def declared_outputs(models, nid):
 
 def run(ctx):
     ctx.check_theorems("ActsModel.Props.C05")
-    scs = scenarios(ctx.seed, 150 if ctx.tier == "quick" else 4000)
+    scs = scenarios(ctx.seed, 600 if ctx.tier == "quick" else 4000)
     results = ctx.harness("run", scs)
     reqs, where = [], []
     for si, (sc, res) in enumerate(zip(scs, results)):
